@@ -179,6 +179,40 @@ DoCache ==
                [cli |-> Ev.cli, when |-> Ev.when, rows |-> DiffRows(got, want)])
     /\ UNCHANGED <<dbs, mons, cmons>>
 
+\* ---- cache events (property C14): every handler's callbacks, in delivery
+\* order, folded over an empty table set reproduce the cache; every event is
+\* legal where it stands (add of an absent row, update / delete of a row whose
+\* current state is the event's old model); all handlers saw the same sequence
+RECURSIVE FoldEvents(_, _, _)
+\* tbls: table -> uuid -> row; returns [ok, at, tbls]
+FoldEvents(tbls, evs, i) ==
+    IF i > Len(evs) THEN [ok |-> TRUE, at |-> 0, tbls |-> tbls]
+    ELSE LET e == evs[i]
+             t == e.t
+             cur == tbls[t]
+         IN  IF t \notin Tables THEN [ok |-> FALSE, at |-> i, tbls |-> tbls]
+             ELSE IF e.k = "add"
+             THEN IF e.u \in DOMAIN cur THEN [ok |-> FALSE, at |-> i, tbls |-> tbls]
+                  ELSE FoldEvents([tbls EXCEPT ![t] = Override(cur, [u \in {e.u} |-> RowJ(t, e.new)])], evs, i + 1)
+             ELSE IF e.u \notin DOMAIN cur \/ cur[e.u] # RowJ(t, e.old) THEN [ok |-> FALSE, at |-> i, tbls |-> tbls]
+             ELSE IF e.k = "update"
+             THEN FoldEvents([tbls EXCEPT ![t] = [cur EXCEPT ![e.u] = RowJ(t, e.new)]], evs, i + 1)
+             ELSE FoldEvents([tbls EXCEPT ![t] = Without(cur, {e.u})], evs, i + 1)
+
+DoEvents ==
+    /\ Ev.ev = "events"
+    /\ Chk(Ev.err = "", "C14", "a handler was given a model that cannot be read", [cli |-> Ev.cli, err |-> Ev.err])
+    /\ Chk(Ev.barrier, "C14", "the event of an applied change was never delivered to a handler", [cli |-> Ev.cli])
+    /\ \A h \in DOMAIN Ev.handlers :
+         LET f == FoldEvents(EmptyDB, Ev.handlers[h], 1)
+         IN  /\ Chk(f.ok, "C14", "an event is illegal where it stands (old model is not the previous state of the row, or add of an existing row)",
+                    [cli |-> Ev.cli, handler |-> h, index |-> f.at,
+                     event |-> IF f.at > 0 THEN [k |-> Ev.handlers[h][f.at].k, t |-> Ev.handlers[h][f.at].t, u |-> Ev.handlers[h][f.at].u] ELSE [k |-> "", t |-> "", u |-> ""]])
+             /\ f.ok => Chk(f.tbls = DbJ(Ev.rows), "C14", "the events of a handler do not reproduce the cache contents",
+                            [cli |-> Ev.cli, handler |-> h, rows |-> DiffRows(f.tbls, DbJ(Ev.rows))])
+    /\ Chk(\A g, h \in DOMAIN Ev.handlers : Ev.handlers[g] = Ev.handlers[h], "C14", "handlers saw different event sequences", [cli |-> Ev.cli])
+    /\ UNCHANGED <<dbs, mons, cmons>>
+
 \* the client after a forced schedule: still connected, no Monitor call failed, nothing hangs
 DoHealth ==
     /\ Ev.ev = "health"
@@ -190,7 +224,7 @@ DoHealth ==
 
 Next ==
     \/ /\ l <= Len(Trace)
-       /\ (DoReset \/ DoLoad \/ DoTxn \/ DoMonitor \/ DoCMonitor \/ DoCache \/ DoHealth)
+       /\ (DoReset \/ DoLoad \/ DoTxn \/ DoMonitor \/ DoCMonitor \/ DoCache \/ DoHealth \/ DoEvents)
        /\ l' = l + 1
        /\ UNCHANGED done
     \/ /\ l = Len(Trace) + 1
